@@ -82,7 +82,7 @@ func (n gnode) build() any {
 	case "leaf":
 		return n.leaf()
 	case "cond":
-		c := condHistory(n.Kw, stackage.ComparisonOperator(n.Op), n.Kids[0].build(), fillMode(n.Kw+fmt.Sprint(n.Op, len(n.Kids))))
+		c := condHistory(n.Kw, c02Operator(n.Op), n.Kids[0].build(), fillMode(n.Kw+fmt.Sprint(n.Op, len(n.Kids))))
 		if n.Paren {
 			c.SetParen(true)
 		}
@@ -230,8 +230,22 @@ func (n gnode) ref() string {
 	return refCondense(body)
 }
 
+// c02Operator: 1..6 the built-in comparison operators (other small numbers: invalid ones), 101 / 102 user
+// operators whose value is the zero value of its type, 103 an ordinary user operator.
+func c02Operator(op int) stackage.Operator {
+	switch op {
+	case 101:
+		return zeroOp{}
+	case 102:
+		return enumOp(0)
+	case 103:
+		return userOp{"~>", "follows"}
+	}
+	return stackage.ComparisonOperator(op)
+}
+
 func (n gnode) refCond() string {
-	if n.Kw == "" || n.Op < 1 || n.Op > 6 {
+	if n.Kw == "" || ((n.Op < 1 || n.Op > 6) && (n.Op < 101 || n.Op > 103)) {
 		return ""
 	}
 	ex := n.Kids[0]
@@ -253,7 +267,7 @@ func (n gnode) refCond() string {
 		raw = ex.ref()
 	}
 	p := pad(n.NoPad)
-	s := n.Kw + p + refOpText(stackage.ComparisonOperator(n.Op)) + p + refEncap(encModel[n.Enc], raw)
+	s := n.Kw + p + refOpText(c02Operator(n.Op)) + p + refEncap(encModel[n.Enc], raw)
 	if n.Paren {
 		s = "(" + p + s + p + ")"
 	}
@@ -485,7 +499,7 @@ func c02Class(n gnode, got, want string) string {
 
 func c02Cfgs(kind string, full bool) []gnode {
 	var out []gnode
-	syms := []string{"", "&", "&&", "vel"}
+	syms := []string{"", "&", "&&", "vel", " && "} // the last one: blanks at either end belong to the symbol
 	delims := []string{""}
 	if kind == "LIST" {
 		syms = []string{""}
@@ -541,12 +555,14 @@ func c02Trees(c *Ctx) []gnode {
 		cond("s", 3, gnode{T: "stack", Kind: "OR", Kids: []gnode{lf("a"), lf("b")}}),
 		{T: "cond", Kw: "p", Op: 4, Paren: true, Enc: 1, Kids: []gnode{lf("q")}}, {T: "cond", Kw: "p", Op: 5, NoPad: true, Paren: true, Kids: []gnode{lf("q")}},
 		cond("e", 1, lf("")),
+		// user operators, two of them the zero value of their type
+		cond("cn", 101, lf("Jesse")), cond("cn", 102, lf("J*")), cond("cn", 103, lf("x")), {T: "cond", Kw: "cn", Op: 101, NoPad: true, Paren: true, Kids: []gnode{lf("Jesse")}},
 		// an invalid Condition (no keyword; operator out of range) as the expression of a valid one: it contributes nothing
 		cond("outer", 1, cond("", 2, lf("v"))), cond("outer", 2, cond("k3", 9, lf("w"))), cond("outer", 3, cond("k4", 1, lf("")))}
 	var trees []gnode
 	// (0) every Go numeric kind, bool and a few float shapes as leaves and as Condition expressions
 	for _, v := range []any{int8(-8), int16(-300), int32(70000), int64(-1 << 40), uint(7), uint8(200), uint16(65535), uint32(1 << 31), uint64(1 << 63), float32(1.5), float32(1e10), float32(1.1), float32(0.1), float32(-9.378), 0.1, 1.1, 1e21, 1e-7, -0.5, 100000.0, 1234567.0,
-		complex64(complex(1, -2)), complex(0.5, 3), false, 0, -12} {
+		complex64(complex(1, -2)), complex(0.5, 3), false, 0, -12, complex64(complex(0.1, 0.2)), complex(0.1, -0.7), float32(0.3), complex64(complex(1e-3, 3.3))} {
 		for _, k := range kinds {
 			trees = append(trees, gnode{T: "stack", Kind: k, Kids: []gnode{{T: "leaf", V: v}, lf("t")}}, gnode{T: "stack", Kind: k, NoPad: true, Enc: 1, Kids: []gnode{{T: "leaf", V: v}}})
 		}
